@@ -76,3 +76,13 @@ Theorem C01_toric3d_all_stabilizers_commute_for_all_sizes :
                        (Toric3D.is_vertex s') (Toric3D.support Lx Ly Lz s') = true.
 Proof. exact Toric3D.toric3d_stabilizers_commute. Qed.
 Print Assumptions C01_toric3d_all_stabilizers_commute_for_all_sizes.
+
+(** Layer P, Planar3DCode (open boundaries), every size L_x, L_y, L_z >= 2: all generators pairwise commute. *)
+From PQ Require Planar3D.
+Theorem C01_planar3d_all_stabilizers_commute_for_all_sizes :
+  forall (Lx Ly Lz : BinNums.Z) s s', (2 <= Lx)%Z -> (2 <= Ly)%Z -> (2 <= Lz)%Z ->
+  In s (Planar3D.stab_coords Lx Ly Lz) -> In s' (Planar3D.stab_coords Lx Ly Lz) ->
+  Toric3D.ops_commute3 (Planar3D.is_vertex s) (Planar3D.support Lx Ly Lz s)
+                       (Planar3D.is_vertex s') (Planar3D.support Lx Ly Lz s') = true.
+Proof. exact Planar3D.planar3d_stabilizers_commute. Qed.
+Print Assumptions C01_planar3d_all_stabilizers_commute_for_all_sizes.
